@@ -53,13 +53,14 @@ def expand_slices(text, record):
         attr = kv.get('attr', '"#[kani::proof]"').strip('"')
         extra = kv.get('extra', '""').strip('"')
         total = hi - lo + 1
+        width = max(2, len(str(n - 1)))
         out = []
         cells = []
         for i in range(n):
             a = lo + total * i // n
             b = lo + total * (i + 1) // n - 1
             cells.append((a, b))
-            out.append('%s\n#[kani::stub(alloc::fmt::format, stub_format)]\n%s\nfn %s_s%02d() { %s(%d, %d) }\n' % (attr, extra, prefix, i, call, a, b))
+            out.append('%s\n#[kani::stub(alloc::fmt::format, stub_format)]\n%s\nfn %s_s%0*d() { %s(%d, %d) }\n' % (attr, extra, prefix, width, i, call, a, b))
         # partition check
         assert cells[0][0] == lo and cells[-1][1] == hi and all(cells[i][1] + 1 == cells[i + 1][0] for i in range(n - 1)), 'slices do not partition'
         record[prefix] = cells
